@@ -1,2 +1,5 @@
 """Property theorems (names in coq/Props/<id>.v) whose assumptions are audited."""
-THEOREMS = {}
+THEOREMS = {
+    "C02": ["C02_consts_frozen", "C02_grammar_reads_shipped_assets"],
+    "C03": ["C03_assets"],
+}
